@@ -64,7 +64,7 @@ fn init_for(g: &mut CG, comb: Option<Comb>, want_wrapper: bool) -> (Ty, Vec<COp>
     }
 }
 
-#[derive(Clone, Copy, PartialEq)]
+#[derive(Clone, Copy, PartialEq, Debug)]
 pub enum Which {
     C01,
     C02,
@@ -126,6 +126,7 @@ fn gen_prog(rng: &mut TestRng, i: usize, which: Which) -> ChainProg {
     };
     let mut branches = Vec::new();
     let mut nestings: Vec<(String, String, usize)> = Vec::new();
+    let mut nest_pairs: Vec<(String, String)> = Vec::new();
     for b in 0..nb {
         let mut g = CG {
             rng,
@@ -147,6 +148,7 @@ fn gen_prog(rng: &mut TestRng, i: usize, which: Which) -> ChainProg {
             nest: if which == Which::C17 { 0.45 } else { 0.0 },
             nest_depth: 0,
             nest_log: vec![],
+            nest_pairs: vec![],
             wrappers: match which {
                 Which::C02 => 0.3,
                 Which::C10 | Which::C11 => 0.25,
@@ -332,6 +334,7 @@ fn gen_prog(rng: &mut TestRng, i: usize, which: Which) -> ChainProg {
             }
         }
         nestings.extend(g.nest_log.iter().cloned());
+        nest_pairs.extend(g.nest_pairs.iter().cloned());
         let let_name = if rb(g.rng, if which == Which::C12 { 0.85 } else { 0.25 }) { Some((format!("nm{}", b), rb(g.rng, 0.3))) } else { None };
         branches.push(ChainBranch { locals, let_name, init_ty: init_ty.clone(), init_text: init_text.clone(), ops, fin });
     }
@@ -355,7 +358,7 @@ fn gen_prog(rng: &mut TestRng, i: usize, which: Which) -> ChainProg {
                 tup_ty = Ty::Tup(Box::new(tup_ty), Box::new(t.clone()));
                 tup_text = format!("({}, a{})", tup_text, i);
             }
-            let mut g = CG { rng, fam: Family::Sync, next: 0, base: 90_000, caps: 0.15, wrappers: 0.1, shapes: true, allow_deferred: false, spawn_async: true, depth: 0, force: None, forced_done: false, ck: 0.0, ns: 0.0, sn: 0.0, nest: 0.3, nest_depth: 0, nest_log: vec![] };
+            let mut g = CG { rng, fam: Family::Sync, next: 0, base: 90_000, caps: 0.15, wrappers: 0.1, shapes: true, allow_deferred: false, spawn_async: true, depth: 0, force: None, forced_done: false, ck: 0.0, ns: 0.0, sn: 0.0, nest: 0.3, nest_depth: 0, nest_log: vec![], nest_pairs: vec![] };
             let try_res = branches.first().map(|b| matches!(b.fin, Ty::Res(_))).unwrap_or(false);
             let (hkind, out_ty): (&str, Ty) = if !kind.is_try {
                 ("then", g.any_ty(1))
@@ -367,6 +370,7 @@ fn gen_prog(rng: &mut TestRng, i: usize, which: Which) -> ChainProg {
             };
             let inv = g.nested_invocation(&tup_ty, &tup_text, &out_ty, "handler");
             nestings.extend(g.nest_log.iter().cloned());
+            nest_pairs.extend(g.nest_pairs.iter().cloned());
             let params: Vec<String> = arg_tys.iter().enumerate().map(|(i, t)| format!("a{}: {}", i, t.name())).collect();
             // async then / and_then handlers return a future that the macro awaits
             let body = if kind.is_async && hkind != "map" { format!("ready({})", inv) } else { inv };
@@ -375,7 +379,7 @@ fn gen_prog(rng: &mut TestRng, i: usize, which: Which) -> ChainProg {
     }
     // C19: the non-spawning async macros with a (pass-through) custom joiner must not add a Send bound either
     let options = if which == Which::C19 && kind.is_async && branches.len() >= 2 && rb(rng, 0.4) { format!("custom_joiner(jvrt::{}!) ", if kind.is_try { "jv_ptry" } else { "jv_pjoin" }) } else { String::new() };
-    ChainProg { fam, mac: mac.to_string(), branches, nestings, handler, options }
+    ChainProg { fam, mac: mac.to_string(), branches, nestings, handler, options, nest_pairs }
 }
 
 fn strategy(i: usize, which: Which) -> impl Strategy<Value = ChainProg> {
@@ -406,16 +410,15 @@ fn hoist_ref(ops: &mut Vec<COp>, defs: &mut Vec<String>, counter: &mut usize) {
     }
 }
 
-pub fn case_code(p: &ChainProg, idx: usize) -> (String, usize, usize, bool) {
+/// the macro side of a program as `fn case_<idx>_<suffix>() -> String`
+fn mac_fn(p: &ChainProg, idx: usize, suffix: &str) -> String {
     let kind = macro_kind(&p.mac);
-    let fam = p.fam;
-    let n = p.branches.len();
     let mut body: Vec<String> = p.branches.iter().map(render_branch_macro).collect();
     if let Some((k, text)) = &p.handler {
         body.push(format!("{} => {}", k, text));
     }
     let mut mac = String::new();
-    mac.push_str(&format!("#[allow(unused, non_snake_case)]\nfn case_{}_mac() -> String {{\n    use jvrt::chainrt::*;\n", idx));
+    mac.push_str(&format!("#[allow(unused, non_snake_case)]\nfn case_{}_{}() -> String {{\n    use jvrt::chainrt::*;\n", idx, suffix));
     for b in &p.branches {
         for l in &b.locals {
             mac.push_str(&format!("    {}\n", l));
@@ -425,6 +428,150 @@ pub fn case_code(p: &ChainProg, idx: usize) -> (String, usize, usize, bool) {
         mac.push_str(&format!("    block_on(async {{\n        let __r = ::join::{}! {{\n            {}{}\n        }}.await;\n        format!(\"{{:?}}\", __r)\n    }})\n}}\n", p.mac, p.options, body.join(",\n            ")));
     } else {
         mac.push_str(&format!("    let __r = ::join::{}! {{\n        {}{}\n    }};\n    format!(\"{{:?}}\", __r)\n}}\n", p.mac, p.options, body.join(",\n        ")));
+    }
+    mac
+}
+
+thread_local! {
+    /// which check the programs are rendered for (controls depend on it)
+    pub static WHICH: std::cell::Cell<Which> = const { std::cell::Cell::new(Which::C01) };
+}
+
+/// replaces whole-word occurrences of `from`
+fn replace_word(text: &str, from: &str, to: &str) -> String {
+    let mut out = String::new();
+    let b: Vec<char> = text.chars().collect();
+    let f: Vec<char> = from.chars().collect();
+    let mut i = 0;
+    while i < b.len() {
+        let m = i + f.len() <= b.len() && b[i..i + f.len()] == f[..];
+        let before_ok = i == 0 || !(b[i - 1].is_alphanumeric() || b[i - 1] == '_');
+        let after_ok = i + f.len() >= b.len() || !(b[i + f.len()].is_alphanumeric() || b[i + f.len()] == '_');
+        if m && before_ok && after_ok {
+            out.push_str(to);
+            i += f.len();
+        } else {
+            out.push(b[i]);
+            i += 1;
+        }
+    }
+    out
+}
+
+/// `{ cap(ID); X }` -> `X`
+fn unwrap_captures(text: &str) -> String {
+    let mut s = text.to_string();
+    loop {
+        let Some(start) = s.find("{ cap(") else { return s };
+        // matching brace
+        let bytes: Vec<char> = s[start..].chars().collect();
+        let mut depth = 0i32;
+        let mut end = None;
+        for (k, c) in bytes.iter().enumerate() {
+            match c {
+                '{' => depth += 1,
+                '}' => {
+                    depth -= 1;
+                    if depth == 0 {
+                        end = Some(k);
+                        break;
+                    }
+                }
+                _ => {}
+            }
+        }
+        let Some(end) = end else { return s };
+        let inner: String = bytes[..=end].iter().collect();
+        let after_semi = match inner.find("); ") {
+            Some(p) => inner[p + 3..inner.len() - 1].trim().to_string(),
+            None => return s,
+        };
+        let byte_end = start + inner.len();
+        s = format!("{}{}{}", &s[..start], after_semi, &s[byte_end..]);
+    }
+}
+
+/// The control of a program: the same program through the macro *without* the feature the property is
+/// about. A difference between macro side and documented chain counts for the property only when the
+/// control agrees with the documented chain (otherwise the defect lies elsewhere).
+fn control_text(p: &ChainProg, idx: usize) -> Option<String> {
+    match WHICH.with(|w| w.get()) {
+        // C12: no `let` names
+        Which::C12 => {
+            let mut q = p.clone();
+            for b in q.branches.iter_mut() {
+                b.let_name = None;
+            }
+            Some(mac_fn(&q, idx, "ctl"))
+        }
+        // C07: the plain macro of the class
+        Which::C07 => {
+            let mut q = p.clone();
+            q.mac = match p.mac.as_str() {
+                "join_spawn" | "spawn" => "join",
+                "try_join_spawn" | "try_spawn" => "try_join",
+                "join_async_spawn" | "async_spawn" => "join_async",
+                _ => "try_join_async",
+            }
+            .to_string();
+            Some(mac_fn(&q, idx, "ctl"))
+        }
+        // C19: Send + Sync twins of the values, owned copies instead of borrows of the caller's locals,
+        // no custom joiner
+        Which::C19 => {
+            let mut q = p.clone();
+            q.options = String::new();
+            let mut t = replace_word(&mac_fn(&q, idx, "ctl"), "Ns", "Sy");
+            for b in 0..q.branches.len() {
+                t = t.replace(&format!("__r{}.iter() |> rd(", b), &format!("__loc{}.clone().into_iter() |> rdo(", b));
+                t = t.replace(&format!("__m{}.iter_mut() |> inc_mut(", b), &format!("__locm{}.clone().into_iter() |> inco(", b));
+            }
+            Some(t)
+        }
+        // C17: nested invocations written as plain chains
+        Which::C17 => {
+            // (a program without any nesting is its own control: it says nothing about nesting)
+            let mut t = mac_fn(p, idx, "ctl");
+            for _ in 0..4 {
+                for (m, plain) in p.nest_pairs.iter().rev() {
+                    if t.contains(m.as_str()) {
+                        t = t.replace(m.as_str(), plain);
+                    }
+                }
+            }
+            Some(t)
+        }
+        // C11: captures unwrapped
+        Which::C11 => {
+            let t = mac_fn(p, idx, "ctl");
+            let u = unwrap_captures(&t);
+            if u == t {
+                None
+            } else {
+                Some(u)
+            }
+        }
+        _ => None,
+    }
+}
+
+pub struct CaseCode {
+    pub code: String,
+    pub ctl_from: Option<usize>,
+    pub ref_from: usize,
+    pub n_ops: usize,
+    pub concurrent: bool,
+}
+
+pub fn case_code(p: &ChainProg, idx: usize) -> CaseCode {
+    let kind = macro_kind(&p.mac);
+    let fam = p.fam;
+    let n = p.branches.len();
+    let mut mac = mac_fn(p, idx, "mac");
+    let ctl_from = mac.matches('\n').count();
+    let ctl = control_text(p, idx);
+    if let Some(c) = &ctl {
+        mac.push_str(c);
     }
     let ref_from = mac.matches('\n').count();
     // ---- reference side: per branch, step by step; the block captures of a step are evaluated
@@ -525,16 +672,23 @@ pub fn case_code(p: &ChainProg, idx: usize) -> (String, usize, usize, bool) {
         r.push_str("}\n");
     }
     let n_ops: usize = p.branches.iter().map(|b| count_ops(&b.ops)).sum();
-    (format!("{}{}", mac, r), ref_from, n_ops, concurrent)
+    CaseCode { code: format!("{}{}", mac, r), ctl_from: ctl.as_ref().map(|_| ctl_from), ref_from, n_ops, concurrent }
 }
 
 pub const HEADER: &str = "#![allow(unused_imports, unused_variables, unused_mut, unused_parens, unused_braces, dead_code)]\n#![recursion_limit = \"1024\"]\nuse futures::future::ready;\nuse futures::{FutureExt, StreamExt, TryFutureExt, TryStreamExt};\nuse jvrt::chainrt::ChainCase;\n\n";
 
 fn case_src(p: &ChainProg, idx: usize) -> CaseSrc {
-    let (code, ref_from, n_ops, concurrent) = case_code(p, idx);
+    let cc = case_code(p, idx);
     let kind = macro_kind(&p.mac);
     let short_circuit = kind.is_async && kind.is_try && p.branches.len() >= 2;
-    CaseSrc { idx, code, table: format!("        ChainCase {{ idx: {}, mac: case_{}_mac, refn: case_{}_ref, n_ops: {}, concurrent: {}, short_circuit: {} }},\n", idx, idx, idx, n_ops, concurrent, short_circuit), ref_from: Some(ref_from) }
+    let ctl = if cc.ctl_from.is_some() { format!("Some(case_{}_ctl)", idx) } else { "None".to_string() };
+    CaseSrc {
+        idx,
+        code: cc.code,
+        table: format!("        ChainCase {{ idx: {}, mac: case_{}_mac, refn: case_{}_ref, n_ops: {}, concurrent: {}, short_circuit: {}, ctl: {} }},\n", idx, idx, idx, cc.n_ops, cc.concurrent, short_circuit, ctl),
+        ref_from: Some(cc.ref_from),
+        ctl_from: cc.ctl_from,
+    }
 }
 
 fn main_text(cs: &[&CaseSrc]) -> String {
@@ -657,6 +811,7 @@ pub fn run(id: &str, tier: &str, seed: u64) -> i32 {
         "C07" => Which::C07,
         _ => Which::C01,
     };
+    WHICH.with(|w| w.set(which));
     let (count, inputs) = match (which, tier) {
         (Which::C01, "quick") => (2640, 48),
         (Which::C01, _) => (26400, 128),
@@ -679,6 +834,7 @@ pub fn run(id: &str, tier: &str, seed: u64) -> i32 {
     .to_string();
     ev.assumptions = vec![
         "rustc/cargo, std, futures 0.3.26 and tokio 1.26 behave as documented".into(),
+        "stages serving C07 / C11 / C12 / C17 / C19 attribute a difference to the property only when the control program (same program through the macro without the property's feature) agrees with the documented chain".into(),
         "the reference translation (README tables -> method chain) is written independently of join_impl; block-capture operands are hoisted on the reference side too, as the README documents".into(),
         "futures and streams in the async chains are immediately ready (ready(), stream::iter): pending points are the business of C03 / C09".into(),
     ];
@@ -688,7 +844,7 @@ pub fn run(id: &str, tier: &str, seed: u64) -> i32 {
     let mut seen = HashSet::new();
     for i in 0..count {
         let p = strategy(i, which).new_tree(&mut runner).unwrap().current();
-        let text = case_code(&p, 0).0;
+        let text = case_code(&p, 0).code;
         if seen.insert(text) {
             progs.push(p);
         }
@@ -720,15 +876,25 @@ pub fn run(id: &str, tier: &str, seed: u64) -> i32 {
         ev.infra.extend(res.infra.iter().cloned());
         for (k, v) in &res.ref_fail {
             ref_fail_n += 1;
-            ev.infra.push(format!("reference side of a generated program does not compile (generator bug): {:?}\n{}", v, case_code(&chunk[*k], *k).0));
+            ev.infra.push(format!("reference side of a generated program does not compile (generator bug): {:?}\n{}", v, case_code(&chunk[*k], *k).code));
         }
         for (k, v) in &res.compile_fail {
             found.push((chunk[*k].clone(), json!({"compile_errors": v}), true));
+        }
+        if !res.ctl_fail.is_empty() {
+            *ev.classes.entry("control does not compile: case dropped (attributed elsewhere)".into()).or_default() += res.ctl_fail.len() as u64;
         }
         for r in &res.reports {
             let idx = r["case"].as_u64().unwrap_or(0) as usize;
             ev.evaluations += r["runs"].as_u64().unwrap_or(0);
             ev.nontrivial += r["nontrivial"].as_u64().unwrap_or(0);
+            if let Some(m) = r["classes"].as_object() {
+                for (k, v) in m {
+                    if k.contains("control") {
+                        *ev.classes.entry(k.clone()).or_default() += v.as_u64().unwrap_or(0);
+                    }
+                }
+            }
             if let Some(s) = r["samples"].as_array() {
                 if ev.samples.len() < 6 && !s.is_empty() && idx % 37 == 0 {
                     ev.samples.push(json!({"macro": chunk[idx].mac, "branches": chunk[idx].branches.iter().map(render_branch_macro).collect::<Vec<_>>(), "run": s[0]}));
@@ -755,7 +921,7 @@ pub fn run(id: &str, tier: &str, seed: u64) -> i32 {
     found.sort_by_key(|f| f.2);
     if std::env::var("JV_DEBUG").is_ok() {
         for f in found.iter().take(30) {
-            eprintln!("--- found (compile={}):\n{}\n{}", f.2, case_code(&f.0, 0).0, f.1);
+            eprintln!("--- found (compile={}):\n{}\n{}", f.2, case_code(&f.0, 0).code, f.1);
         }
     }
     if let Some((p0, d0, c0)) = found.into_iter().next() {
@@ -779,7 +945,8 @@ pub fn run(id: &str, tier: &str, seed: u64) -> i32 {
             }
             break;
         }
-        let (code, ref_from, n_ops, concurrent) = case_code(&cur.0, 0);
+        let cc = case_code(&cur.0, 0);
+        let (code, ref_from, n_ops, concurrent, ctl_from) = (cc.code, cc.ref_from, cc.n_ops, cc.concurrent, cc.ctl_from);
         let short_circuit_flag = {
             let k = macro_kind(&cur.0.mac);
             k.is_async && k.is_try && cur.0.branches.len() >= 2
@@ -788,7 +955,7 @@ pub fn run(id: &str, tier: &str, seed: u64) -> i32 {
             id,
             &json!({"property": id, "engine": "R-chain", "mode": id, "seed": seed, "tier": tier, "inputs": inputs, "macro": cur.0.mac,
                     "branches": cur.0.branches.iter().map(render_branch_macro).collect::<Vec<_>>(),
-                    "code": code, "ref_from": ref_from, "n_ops": n_ops, "concurrent": concurrent, "short_circuit": short_circuit_flag, "compile_failure": cur.2, "violation": cur.1}),
+                    "code": code, "ref_from": ref_from, "ctl_from": ctl_from, "n_ops": n_ops, "concurrent": concurrent, "short_circuit": short_circuit_flag, "compile_failure": cur.2, "violation": cur.1}),
         );
         evid::print_violation(id, &replay);
         exit = 1;
@@ -813,8 +980,9 @@ pub fn replay(v: &Value) -> i32 {
     let case = CaseSrc {
         idx: 0,
         code,
-        table: format!("        ChainCase {{ idx: 0, mac: case_0_mac, refn: case_0_ref, n_ops: {}, concurrent: {}, short_circuit: {} }},\n", v["n_ops"].as_u64().unwrap_or(2), v["concurrent"].as_bool().unwrap_or(false), v["short_circuit"].as_bool().unwrap_or(false)),
+        table: format!("        ChainCase {{ idx: 0, mac: case_0_mac, refn: case_0_ref, n_ops: {}, concurrent: {}, short_circuit: {}, ctl: {} }},\n", v["n_ops"].as_u64().unwrap_or(2), v["concurrent"].as_bool().unwrap_or(false), v["short_circuit"].as_bool().unwrap_or(false), if v["ctl_from"].is_u64() { "Some(case_0_ctl)" } else { "None" }),
         ref_from: v["ref_from"].as_u64().map(|x| x as usize),
+        ctl_from: v["ctl_from"].as_u64().map(|x| x as usize),
     };
     let env = vec![("JV_SEED".to_string(), v["seed"].as_u64().unwrap_or(1).to_string()), ("JV_BUDGET".to_string(), v["inputs"].as_u64().unwrap_or(64).to_string()), ("JV_MODE".to_string(), id.clone())];
     let res = batch::build_and_run_src(&format!("jvr_{}", id.to_lowercase()), HEADER, &[case], &main_text, &env, &[], "", 300, 1);
